@@ -77,6 +77,17 @@ def run(tier, seed):
         real = trainrun.real_run(cfg, seed=rng.randrange(10 ** 6), k=rng.randint(0, 1),
                                  container=rng.choice(conts))
         runs.append((cfg, real, {}))
+        if i % 3 == 0 and real["error"] is None:
+            # training resumed on the SAME model object with ANOTHER dataset (other rows, other all-Z rows,
+            # starting_epoch > 1): every epoch of the second call must batch the second call's data
+            cfg2 = random_cfg(rng, tier)
+            while cfg2["type"] != cfg["type"] or trainrun.nv_for(cfg2) > real["nv"]:
+                cfg2 = random_cfg(rng, tier)
+            cfg2 = dict(cfg2, startEp=cfg["epochs"] + 1, epochs=cfg["epochs"] + rng.randint(1, 2))
+            real["nn_state"].stop_training = False
+            real2 = trainrun.real_run(cfg2, seed=rng.randrange(10 ** 6), k=rng.randint(0, 1),
+                                      container=rng.choice(conts), nn_state=real["nn_state"])
+            runs.append((cfg2, real2, dict(resumed_after=cfg)))
 
     def swap_rows(lines):
         ln = copy.deepcopy(next(x for x in lines if any(e["k"] == "CG" and len(set(e["pos"])) >= 2 for e in x["ev"])))
